@@ -25,7 +25,7 @@ Definition NPrel (s s' : pstate) : Prop :=
   pb_parents (ps_builder s') = pb_parents (ps_builder s) /\
   ptr_current (ps_rec s') = ptr_current (ps_rec s).
 
-Definition CN : pcfg := {| cInv := NPinv; cWeak := NPinv; cRel := NPrel; cPanicOk := False |}.
+Definition CN : pcfg := {| cInv := NPinv; cWeak := NPinv; cRel := NPrel; cPanicOk := False; cFuelOk := True |}.
 
 Lemma CN_rel : prel_ok CN.
 Proof.
@@ -737,6 +737,7 @@ Lemma CN_ok : pcfg_ok CN.
 Proof.
   constructor.
   - exact CN_rel.
+  - exact I.
   - exact peek_token_N.
   - exact skip_ignored_N.
   - exact push_ignored_N.
